@@ -166,7 +166,8 @@ Theorem rl_first_is_bootstrap LossV agent_actions l h st al cs :
   next_sampler LossV agent_actions (RL LossV l h None st al cs) = Some (h, RL LossV l h None st al cs).
 Proof. reflexivity. Qed.
 Theorem rl_later_from_agent LossV agent_actions l h b st al cs :
-  next_sampler LossV agent_actions (RL LossV l h (Some b) st al cs) = Some (agent_actions cs, RL LossV l h (Some b) st al (S cs)).
+  next_sampler LossV agent_actions (RL LossV l h (Some b) st al cs) =
+  Some (agent_actions (fst cs), RL LossV l h (Some b) st al (S (fst cs), snd cs)).
 Proof. reflexivity. Qed.
 
 (* constructor validation: exactly one of samplers / scheduler *)
@@ -219,3 +220,9 @@ Proof. intros Hf. unfold rl_bootstrap. pose proof (last_index_of_spec HALTON l 0
   - destruct H as [_ Hall]. split; [exists fresh; split; [|exact Hf]; rewrite nth_error_app2, Nat.sub_diag by lia; reflexivity|].
     split; [intros (s & Hs & Hc); exfalso; eapply Hall; eauto | auto].
 Qed.
+
+(* after the session ends nothing is pending: every action the agent put has been consumed or discarded *)
+Theorem rl_session_end_nothing_pending LossV l h b st al cs sc' :
+  end_session LossV (RL LossV l h b st al cs) = inl sc' ->
+  exists q, sc' = RL LossV l h b true false (q, q).
+Proof. cbn. destruct st; [discriminate|]. intros H. injection H as <-. eexists; reflexivity. Qed.
